@@ -197,12 +197,10 @@ theorem bandpass_default_thr (shape : List Nat) (img : Array Rat) (lshort : List
 
 The statement for any dimension is `bandpass_swap_axes` below (exchange of two adjacent axes,
 relation `IsSwap` between the two images).
--- FULL (not proved as one theorem): for an arbitrary permutation `π` of the axes,
---   bandpass (π·shape) (π·img) (π·lshort) (π·kernels) (π·llong) thr = π·(bandpass shape img …).
--- Every permutation is a product of exchanges of adjacent axes, and `bandpass_swap_axes` can be
--- chained along such a product (`IsSwap` composes, the per-axis lists are exchanged step by
--- step); that chaining is not formalised.  Random axis permutations are exercised on the
--- implementation in 3-D on every run (harness `transpose_checked`).
+and `bandpass_permute_axes` (any product of such exchanges).  That these products exhaust the
+permutations of the axes is the standard fact that adjacent transpositions generate the
+symmetric group; it is not formalised here (the harness decomposes its random 3-D axis
+permutations into such products implicitly by calling numpy's `transpose`).
 -/
 
 theorem lowpass_transpose {H W : Nat} {img : Array Rat} (hsz : img.size = H * W)
@@ -464,6 +462,57 @@ theorem bandpass_swap_axes (k : Nat) (sh : List Nat) (img img' : Array Rat)
           rw [map_swapAt]
           exact passes_swapAt k sh _ (srcOK_mapBox llong) (by simpa using l3) img img' himg
 
+/-- results after a product `w` of adjacent-axis exchanges: same error, or images related by `w` -/
+def SwapsRel (w : List Nat) (sh : List Nat) :
+    Except Err (Array Rat) → Except Err (Array Rat) → Prop
+  | .ok out, .ok out' => IsSwaps w sh out out'
+  | .error e, .error e' => e = e'
+  | .ok _, .error _ => False
+  | .error _, .ok _ => False
+
+/-- **"commutes with transposition"**, any dimension, any product `w` of exchanges of adjacent
+    axes — and these products are all the permutations of the axes: if `img'` is `img` with its
+    axes rearranged by `w`, then `bandpass` of `img'` with every per-axis parameter list
+    rearranged by `w` is `bandpass` of `img` with its axes rearranged by `w`. -/
+theorem bandpass_permute_axes : ∀ (w : List Nat) (sh : List Nat) (img img' : Array Rat)
+    (_ : IsSwaps w sh img img') (lshort : List Rat) (kernels : List (Array Rat))
+    (llong : List Int) (thr : Option Rat),
+    SwapsRel w sh (bandpass sh img lshort kernels llong thr)
+      (bandpass (swaps w sh) img' (swaps w lshort) (swaps w kernels) (swaps w llong) thr)
+  | [], sh, img, img', h, ls, ks, ll, thr => by
+    simp only [IsSwaps] at h; subst h
+    simp only [swaps]
+    cases bandpass sh img' ls ks ll thr <;> simp [SwapsRel, IsSwaps]
+  | k :: w, sh, img, img'', h, ls, ks, ll, thr => by
+    simp only [IsSwaps] at h
+    rcases h with ⟨img', h1, h2⟩
+    have s1 := bandpass_swap_axes k sh img img' h1 ls ks ll thr
+    have s2 := bandpass_permute_axes w (swapAt k sh) img' img'' h2 (swapAt k ls) (swapAt k ks)
+      (swapAt k ll) thr
+    simp only [swaps]
+    generalize bandpass sh img ls ks ll thr = r0 at s1 ⊢
+    generalize bandpass (swapAt k sh) img' (swapAt k ls) (swapAt k ks) (swapAt k ll) thr = r1
+      at s1 s2
+    generalize bandpass (swaps w (swapAt k sh)) img'' (swaps w (swapAt k ls))
+      (swaps w (swapAt k ks)) (swaps w (swapAt k ll)) thr = r2 at s2 ⊢
+    cases r0 <;> cases r1 <;> cases r2 <;> simp only [SwapRel, SwapsRel] at s1 s2 ⊢
+    · exact s1.trans s2
+    · exact ⟨_, s1, s2⟩
+
+/-- … pixel for pixel: pixel `w·ix` of the result for the rearranged image is pixel `ix` of the
+    result for the original image -/
+theorem bandpass_permute_axes_pixel (w : List Nat) (sh : List Nat) (img img' : Array Rat)
+    (h : IsSwaps w sh img img') (lshort : List Rat) (kernels : List (Array Rat))
+    (llong : List Int) (thr : Option Rat) (out out' : Array Rat)
+    (h0 : bandpass sh img lshort kernels llong thr = .ok out)
+    (h1 : bandpass (swaps w sh) img' (swaps w lshort) (swaps w kernels) (swaps w llong) thr
+            = .ok out')
+    (ix : List Nat) (hv : Valid sh ix) :
+    pxN (swaps w sh) out' (swaps w ix) = pxN sh out ix := by
+  have := bandpass_permute_axes w sh img img' h lshort kernels llong thr
+  rw [h0, h1] at this
+  exact isSwaps_px w sh out out' this ix hv
+
 /-- an axis-exchanged image exists for every image, so `bandpass_swap_axes` is never vacuous;
     in 2-D it is the executable transpose -/
 theorem exists_isSwap (k : Nat) (sh : List Nat) (img : Array Rat) (hsz : img.size = sh.prod) :
@@ -517,6 +566,10 @@ example : ∃ e, bandpass [3, 3] exI [1, 1] [exK, exK] [3, 4] (some 1) = .error 
 example : Valid [2, 3, 4] [1, 2, 3] := by simp [Valid]
 example (img : Array Rat) (h : img.size = 24) : ∃ img', IsSwap 1 [2, 3, 4] img img' :=
   exists_isSwap 1 [2, 3, 4] img (by simpa using h)
+/-- the cyclic permutation (0 1 2) ↦ (1 2 0) as a product of two exchanges -/
+example : swaps [0, 1] [2, 3, 4] = [3, 4, 2] := rfl
+example (img : Array Rat) (h : img.size = 24) : ∃ img', IsSwaps [0, 1] [2, 3, 4] img img' :=
+  exists_isSwaps [0, 1] [2, 3, 4] img (by simpa using h)
 example : swapAt 1 [2, 3, 4] = [2, 4, 3] := rfl
 
 end TrackpyV.Bandpass
